@@ -87,6 +87,15 @@ theorem resolve_never_rr (info : Nat → ProdInfo) (acts : List Action)
     · simp at h
     · exact h (.reduce rp) (by simp) rp rfl
 
+/-- Non-vacuity of `resolve_never_rr`: a reduce/reduce cell, a reduce/accept cell and a three-action
+cell, all with qualified productions of one rule, stay as they are. -/
+example :
+    let info : Nat → ProdInfo := fun p => ⟨0, p + 1, false⟩
+    resolveOne info [.reduce 0, .reduce 1] = ([.reduce 0, .reduce 1], false) ∧
+      resolveOne info [.reduce 0, .accept] = ([.reduce 0, .accept], false) ∧
+      resolveOne info [.shift 1 [0], .reduce 1, .reduce 2] = ([.shift 1 [0], .reduce 1, .reduce 2], false) := by
+  decide
+
 /-- Neither do qualifiers hide a conflict that spans rules, or one with an unqualified production
 among the participants, or one whose contributing productions carry different precedences:
 everything outside `SRPairOfOneRule` is left unchanged and unresolved. -/
